@@ -3,6 +3,7 @@
 set -e
 cd "$(dirname "$0")"
 export CARGO_NET_OFFLINE=true
+export MIMALLOC_PURGE_DELAY=-1
 python3 tools/extract.py || true
 (cd lean && lake build Chewing chewing-model)
 cp /repo/Cargo.lock harness/Cargo.lock
